@@ -4,7 +4,7 @@ use crate::report::Report;
 use crate::s_ops::*;
 use crate::s_props::*;
 use crate::s_ref::{LibSrc, SrcKind};
-use crate::s_run::Act;
+use crate::s_run::{Act, Trig};
 use crate::s_val::*;
 use std::sync::atomic::AtomicBool;
 use std::sync::Arc;
@@ -483,6 +483,29 @@ fn c14_families(th: bool, single: &[Op], last_pos: &[Op]) -> Vec<(Family, usize)
   let mut with_src = vec![Node::Src(0)];
   with_src.extend(depth1(last_pos));
   fams.push((Family { name: "creation functions subscribed 2-3 times, alone and below every operator".into(), pipelines: with_src, worlds: Arc::new(wl), oracles: vec![Oracle::Independence] }, 1));
+  // (a'') nested: the first subscriber's callback subscribes again to the same Observable value
+  let mut w_nest = vec![];
+  for sc in wf_scripts(&[1, 2], 2, &[Ending::Complete, Ending::Error]) {
+    for trig in [Trig::Item(1), Trig::Item(2), Trig::Complete, Trig::Error] {
+      let decl = Act::Nest { outer: 0, trig, inner: 1 };
+      w_nest.push(World { srcs: vec![SrcKind::Cold { scripts: vec![sc.clone()], polite: true }], acts: vec![decl.clone(), Act::Sub(0)] });
+      let mut acts = vec![decl.clone(), Act::Sub(0)];
+      acts.extend(sc.iter().map(|e| Act::Emit(0, e.clone())));
+      w_nest.push(World { srcs: vec![SrcKind::Hot], acts: acts.clone() });
+      w_nest.push(World { srcs: vec![SrcKind::Subject], acts });
+    }
+  }
+  let w_nest = Arc::new(w_nest);
+  fams.push((Family { name: "nested: a callback subscribes again to the same Observable value, depth 1".into(), pipelines: depth1(last_pos), worlds: w_nest.clone(), oracles: vec![Oracle::Independence] }, 1));
+  fams.push((Family { name: "nested, depth 2 (reduced catalogue)".into(), pipelines: depth2(&reduced_ops(), &reduced_ops()), worlds: w_nest.clone(), oracles: vec![Oracle::Independence] }, 2));
+  {
+    let two = |op: &Op| Node::opx(op.clone(), Node::Src(0), vec![Node::Src(0)]);
+    let mp: Vec<Node> = multi_ops().iter().map(two).collect();
+    // not over the crate's Subject: the order in which a Subject notifies two
+    // subscriptions of the same pipeline is its HashMap's, which nothing fixes
+    let w_no_subject: Vec<World> = w_nest.iter().filter(|w| w.srcs[0] != SrcKind::Subject).cloned().collect();
+    fams.push((Family { name: "nested, combining operators over one source used twice".into(), pipelines: mp, worlds: Arc::new(w_no_subject), oracles: vec![Oracle::Independence] }, 1));
+  }
   // (c) every operator under retry: attempts differ
   let attempts: Vec<Vec<Ev>> = vec![vec![Ev::E(1)], vec![Ev::n(1), Ev::E(2)], vec![Ev::n(1), Ev::n(2), Ev::E(3)], vec![Ev::n(2), Ev::C], vec![Ev::C], vec![Ev::n(1), Ev::n(1), Ev::C]];
   let mut w_retry = vec![];
@@ -552,6 +575,16 @@ pub fn c07_slice(r: &mut Report, tier: &str) {
       w.push(World { srcs: vec![SrcKind::Subject], acts });
     }
   }
+  // callbacks that subscribe again to the Observable value they are being called from
+  for sc in wf_scripts(&[1, 2], 2, &[Ending::Complete, Ending::Error]) {
+    for trig in [Trig::Item(1), Trig::Complete, Trig::Error] {
+      let decl = Act::Nest { outer: 0, trig, inner: 1 };
+      w.push(World { srcs: vec![SrcKind::Cold { scripts: vec![sc.clone()], polite: true }], acts: vec![decl.clone(), Act::Sub(0)] });
+      let mut acts = vec![decl, Act::Sub(0)];
+      acts.extend(sc.iter().map(|e| Act::Emit(0, e.clone())));
+      w.push(World { srcs: vec![SrcKind::Subject], acts });
+    }
+  }
   let w = Arc::new(w);
   let mut fams = vec![
     (Family { name: "monitor slice: depth 1".into(), pipelines: depth1(&last_pos), worlds: w.clone(), oracles: vec![] }, 1),
@@ -560,6 +593,27 @@ pub fn c07_slice(r: &mut Report, tier: &str) {
   for (mut f, d) in multi_families(false, false, vec![]) {
     f.name = format!("monitor slice: {}", f.name);
     fams.push((f, d));
+  }
+  // combining operators over cold sources whose subscriber re-subscribes the same Observable value from a callback
+  {
+    let per = wf_scripts(&[1], 1, &[Ending::Complete, Ending::Error]);
+    let mut wn = vec![];
+    for a in &per {
+      for b in &per {
+        for trig in [Trig::Item(1), Trig::Complete, Trig::Error] {
+          wn.push(World {
+            srcs: vec![SrcKind::Cold { scripts: vec![a.clone()], polite: true }, SrcKind::Cold { scripts: vec![offset(b, 10)], polite: true }],
+            acts: vec![Act::Nest { outer: 0, trig, inner: 1 }, Act::Sub(0)],
+          });
+        }
+      }
+    }
+    let two = |op: &Op| Node::opx(op.clone(), Node::Src(0), vec![Node::Src(1)]);
+    let mut mp: Vec<Node> = multi_ops_all().iter().map(two).collect();
+    for k in [Inner::Just10, Inner::Cold2, Inner::Err, Inner::Empty] {
+      mp.push(Node::op(Op::FlatMap(k), Node::Src(0)));
+    }
+    fams.push((Family { name: "monitor slice: combining operators re-subscribed from a callback".into(), pipelines: mp, worlds: Arc::new(wn), oracles: vec![] }, 1));
   }
   let stop = AtomicBool::new(false);
   let mut per = vec![];
